@@ -20,7 +20,10 @@ def gen_cmd(rng, keys, reads=True):
     r = rng.random()
     if reads and r < 0.30:
         q = rng.random()
-        if q < 0.35: return ["get", k]
+        if q < 0.25: return ["get", k]
+        if q < 0.35:       # a default of the caller's own, drawn from the values the commands write
+            d1, d2 = rng.sample([1, 2, 7, 0, "x", "y"], 2)
+            return ["get", k, enc(d1), enc(d2)]
         if q < 0.5: return ["get_many", [rng.choice(keys) for _ in range(rng.randint(1, 3))]]
         if q < 0.7: return ["exists", k]
         if q < 0.8: return ["get_expire", k]
